@@ -80,6 +80,19 @@ def Run (cmp : Nat → Nat → Int) : List Nat → List Op → List Out → List
   | items, op :: ops, outs, items' =>
     ∃ o os mid, outs = o :: os ∧ Step cmp items op o mid ∧ Run cmp mid ops os items'
 
+/-- the elements successfully pushed in a history -/
+def pushed : List Op → List Out → List Nat
+  | .push x :: ops, o :: os => if o.st = .ok then x :: pushed ops os else pushed ops os
+  | _ :: ops, _ :: os => pushed ops os
+  | _, _ => []
+
+/-- the elements returned by the pops of a history -/
+def popped : List Op → List Out → List Nat
+  | .pop :: ops, o :: os => (match o.val with | some v => v :: popped ops os | none => popped ops os)
+  | _ :: ops, _ :: os => popped ops os
+  | _, _ => []
+
+
 /-! ### a deterministic instance (used by the driver) -/
 
 /-- the first element of the list that no other element beats -/
